@@ -223,9 +223,10 @@ CHECKS = {
             "| & ^, concatenation, * + ? and {lo,hi} {lo,} {,hi} with every bound shape (C10_build_lang, with the fragment invariant "
             "C10_fragment_invariant); NFA.from_regex as a whole returns a valid NFA with the denoted language (C10_from_regex_sound) and cannot fail on literals of the alphabet (C10_from_regex_total); "
             "parsing the minimal-parenthesis printing of any AST returns the AST (precedence postfix > concatenation > binary, left "
-            "associative), a redundant outer pair of parentheses and blanks at token boundaries change nothing. Partial: printing is at "
-            "token level (no decimal rendering of bounds to characters); redundant parentheses are proved for the outer pair only, inner "
-            "ones are covered by the correspondence. Model tied to the code by nfa_diff between from_regex's NFA and the model's, exact "
+            "associative); redundant parentheses around ANY sub-expression occurrences (C10_redundant_parens: decorated ASTs) and blanks at "
+            "token boundaries change nothing; the round trip holds on CHARACTER strings with a decimal printer of the bounds "
+            "(C10_show_quant: lex (show_quant lo hi) = [QuantTok lo hi]; C10_parse_show: parse_regex of the printed characters, with extra "
+            "parentheses and blanks anywhere, returns the AST). Model tied to the code by nfa_diff between from_regex's NFA and the model's, exact "
             "AST comparison, and accepts_input vs an independent evaluator on all words up to length 6.",
             "Defect demonstrated on the unrepaired tree: upper bound 0 (a{0,0}) still accepts one copy.", "7/C10"),
     "C11": ("Coq theorems about the same regex front-end model and a model of regex.py's helpers + differential correspondence "
@@ -234,8 +235,10 @@ CHECKS = {
             "(C11_validated_compiles; C11_validated_from_regex_ok: from_regex then returns an NFA unless a literal is a lone brace / outside the given alphabet), what it refuses from_regex refuses with the same regex error type (C11_invalid_is_regex_error), "
             "what compiles validates (C11_compiles_validates); isequal/issubset/issuperset over a common alphabet answer exactly "
             "equality/inclusion of the denotations whenever they answer (C11_*_exact, resting on the verified comparator nfa_diff) and "
-            "fail only as one of the two from_regex calls fails. Partial: 'validated iff in the grammar' is proved in one direction "
-            "(C11_grammar_validates_partial; full statement kept as C11_validate_iff_grammar_statement); NFA.union inside "
+            "fail only as one of the two from_regex calls fails; a non-empty token list passes validate_tokens iff it is derivable in the "
+            "inductive regex grammar (precedence levels, redundant parentheses anywhere; C11_validate_iff_grammar, both directions, and "
+            "C11_validate_chars_iff_grammar for strings), and a derivation of an AST is parsed to that AST (C11_grammar_is_the_parsers). "
+            "Partial: NFA.union inside "
             "issubset/issuperset is modelled by the builder's union (NFA.union itself belongs to C08); the comparator can answer "
             "'out of fuel' on very large operands (reported, never silently accepted).",
             "Defect demonstrated on the unrepaired tree: a blank-only regex passes validate but from_regex raises IndexError.", "7/C11"),
@@ -267,20 +270,26 @@ CHECKS = {
             "mode and the lambda/symbol clash rule), DTM/NTM (one shared sequence of checks), MNTM (single-tape rules first, "
             "InconsistentTapesException only when all of them hold) and GNFA at the structural level (label validity is an input "
             "bit; the regex validator is C11's); valid_dfa / valid_nfa - the hypothesis of every other FA theorem - are exactly "
-            "'duplicate-free keys and the constructor accepts'; for DFA, NFA, NPDA, DPDA, DTM/NTM and MNTM every exception raised is the documented exception "
+            "'duplicate-free keys and the constructor accepts'; valid_dtm / valid_ntm / valid_mntm + valid_tapes - the hypotheses of the C03/C17 theorems, on "
+            "records without state/symbol sets - hold exactly when the constructor accepts the machine embedded in the raw shape over any "
+            "Q, I, T, the rules about those sets and (MNTM) the explicit side conditions apart (C19_valid_tm_agrees); "
+            "for DFA, NFA, GNFA (structural rules: initial/final state, final state without outgoing transitions, complete table, end states, label bit), "
+            "NPDA, DPDA, DTM/NTM and MNTM every exception raised is the documented exception "
             "of a rule that really is broken (rules stated declaratively, one constructor per documented rule with its exception), a "
             "definition with a broken rule is rejected, and when all broken rules share one documented exception - in "
             "particular a single broken rule - exactly that exception is raised; PDA constructors raise only the four documented "
-            "kinds; the DPDA checker C02 reasons about is this checker; valid_pda is 'duplicate-free keys and the NPDA constructor accepts'; results of the Boolean DFA operations, of every expression tree of them, of DFA.from_nfa and of "
+            "kinds; for DFA, NFA and GNFA the rules are also listed as propositions in the code's checking order and the exception raised is that of "
+            "the FIRST broken rule of the list (C19_first_broken_rule_dfa/_nfa/_gnfa); the DPDA checker C02 reasons about is this checker; valid_pda is 'duplicate-free keys and the NPDA constructor accepts'; results of the Boolean DFA operations, of every expression tree of them, of DFA.from_nfa and of "
             "NFA.from_dfa pass validate() (collected from C04/C07; extended as further operations get their theorem); on a well-formed "
             "definition the constructor returns the same object with validation on or off. NOT proved, monitored on every run: that no "
             "operation reads the two process-wide flags (the same battery of ~75 operations per case runs in four separate interpreter "
             "processes; verdicts on all words up to length 5, state counts and exception kinds must be identical; every returned "
-            "automaton is re-validated by validate() and by the model in all four); the ORDER in which several broken rules are "
-            "reported (correspondence: implementation = model on pairs of corruptions; implementation = model = documented kind on "
-            "every single-rule corruption); the GNFA label rule beyond the structural level.",
+            "automaton is re-validated by validate() and by the model in all four); that the model's ORDER of checks is the code's "
+            "(correspondence: implementation = model on pairs of corruptions; implementation = model = documented kind on "
+            "every single-rule corruption; PDA/TM order as a list of propositions is not stated); the GNFA label rule beyond the structural level.",
             "The two flags are interpreter state (DESIGN 6): monitored, not proved. Open known finding: FA validate() accepts a "
-            "transition row keyed by a name outside `states` (not a documented rule; TM classes do check it). PDA validate() does not "
+            "transition row keyed by a name outside `states` (not a documented rule; TM classes do check it). Open known finding: "
+            "GNFA.validate() accepts a transition into the initial state / initial = final state (class docstring forbids both; to_regex() then raises KeyError). PDA validate() does not "
             "check target states or pushed symbols and TM validate() does not check that the blank is outside the input symbols: "
             "neither is a documented/tested rule, none is generated.", "7/C19"),
 }
